@@ -64,26 +64,54 @@ def run(ck: vlib.Check):
         p = fdir / f"f{i}.raw"
         write_file(p, w)
         files.append((f, w, str(p)))
+    # one file with many blocks: reads split into more batches than any bounded pending-queue / cache inside arrays() may hold
+    fmany = G.gen_file(rng, nblocks=150 if quick else 400, small=True)
+    wmany = G.enc_file(fmany); pmany = fdir / "many.raw"; write_file(pmany, wmany)
+    files.append((fmany, wmany, str(pmany)))
     calls, meta = [], []   # meta: dict(kind, file index(es), mask, n_blocks, pb, mw)
     abi, alog = G.build_abi(NATIVE_DIR)     # every third call decodes with the working tree's C++ through ctypes
     if abi is None:
         ck.tie_broken("native-build", "rawabi.cc", alog)
 
-    def add(kind, fi, mask=63, nb=-1, pb=None, mw=None, delay=False, guard=False, seq=None, concat=None):
+    def add(kind, fi, mask=63, nb=-1, pb=None, mw=None, delay=False, guard=False, seq=None, concat=None, decode=False, nomodel=False):
         c = {"id": len(calls), "paths": [files[k][2] for k in (concat if concat is not None else [fi])], "n_blocks": nb, "pb": pb,
              "subs": subs_of(mask), "max_workers": mw, "delay_seed": rng.randrange(1 << 30) if delay else None, "guard": guard,
-             "native_so": str(abi) if (abi is not None and len(calls) % 3 == 1) else None}
+             "native_so": str(abi) if (abi is not None and len(calls) % 3 == 1 and not decode and not nomodel) else None}
         if seq is not None:
             c["seq"] = seq
         if concat is not None:
             c["concat"] = True
+        if decode:
+            c["decode"] = True
         calls.append(c)
-        meta.append({"kind": kind, "fi": fi, "mask": mask, "nb": nb, "pb": pb, "mw": mw, "seq": seq, "concat": concat})
+        # nomodel: calls with electronics-id decoding (the reader model is stated for decode_reid=False; decoding is C10's table image)
+        meta.append({"kind": kind, "fi": fi, "mask": mask, "nb": nb, "pb": pb, "mw": mw, "seq": seq, "concat": concat,
+                     "nomodel": nomodel or decode})
 
     beyond = 0
-    for fi, (f, w, p) in enumerate(files):
+    many = len(files) - 1
+    add("full", many, 63, -1, None, None)
+    for pb, mw in ((1, 2), (2, None), (1, 1), (7, 4)):
+        add("batch", many, 63, -1, pb, mw)
+    add("first_n", many, 63, 131, 2, None)
+    add("full-decoded", many, 63, -1, None, None, decode=True)
+    add("batch-decoded", many, 63, -1, 1, 4, decode=True)
+    for fi, (f, w, p) in enumerate(files[:-1]):
         N = len(f["blocks"])
         add("full", fi, 63, -1, None, None)
+        # with electronics ids decoded (the default of the public API): same clauses, judged against the decoded full read
+        add("full-decoded", fi, 63, -1, None, None, decode=True)
+        if fi < (2 if quick else 6):
+            for mask in (range(1, 64) if fi == 0 else rng.sample(range(1, 64), 8)):
+                add("select-decoded", fi, mask, -1, rng.choice([1, 2, 1000]), None, decode=True)
+            add("batch-decoded", fi, 63, -1, 1, 4, decode=True, delay=True)
+            # the FIRST decoding read of a fresh process, several batches on several threads at once (conversion tables are built lazily)
+            for rep in range(3 if quick else 8):
+                add("fresh-process-decoded", fi, 63, -1, 1, 4, guard=True, decode=True)
+            # histories on one reader mixing decoded / undecoded reads of the same range
+            add("reread-decode-mix", fi, 63, None, rng.choice([1, 1000]), None, nomodel=True,
+                seq=[{"nb": -1, "decode": True}, {"nb": -1, "decode": False}, {"nb": -1, "decode": True}, {"nb": 1, "decode": False},
+                     {"nb": 1, "decode": True}, {"nb": -1, "decode": False}])
         for pb in sorted({1, 2, 3, N, 1000}):
             for mw in ([1, 2, 4, None] if (fi < 2 or not quick) else [rng.choice([1, 2, 4, None])]):
                 add("batch", fi, 63, -1, pb, mw, delay=(mw != 1))
@@ -104,6 +132,9 @@ def run(ck: vlib.Check):
         add("reread", fi, 63, None, 2, 2, delay=True, seq=[-1, 1, -1, min(2, N), -1])
         if fi < (3 if quick else 10):   # histories containing calls that raise (invalid sub-detector name)
             add("reread", fi, 63, None, rng.choice([1, 1000]), None, seq=[-1, "bad", -1, 1, "bad", min(2, N), "bad", -1])
+    # batch sizes chosen so that several decoding tasks run while the first one is still in its first conversion
+    for pb in ((5, 75, 40, 5, 75, 1) if quick else (5, 75, 40, 5, 75, 1, 10, 20, 5, 75, 150, 3)):
+        add("fresh-process-decoded", many, 63, -1, pb, 4, guard=True, decode=True)
     for k in range(2 if quick else 8):
         group = rng.sample(range(nfiles), rng.choice([2, 3]))
         add("concat", None, rng.choice([63, 63, rng.randrange(1, 64)]), -1, rng.choice([1, 2, 10000]), rng.choice([1, None]), concat=group)
@@ -117,6 +148,8 @@ def run(ck: vlib.Check):
     # ---- model answers (one model call per implementation array)
     lines, back = [], []
     for ci, (c, m, r) in enumerate(zip(calls, meta, impl)):
+        if m.get("nomodel"):
+            continue
         mask = m["mask"]
         pb = m["pb"] if m["pb"] is not None else (10000 if m["concat"] is not None else 1000)
         if m["concat"] is not None:
@@ -141,6 +174,8 @@ def run(ck: vlib.Check):
             by_call.setdefault(ci, []).append(mm)
         dis = []
         for ci, (c, m, r) in enumerate(zip(calls, meta, impl)):
+            if ci not in by_call:
+                continue
             vals = r.get("values") or []
             mods = by_call[ci]
             d = None
@@ -180,10 +215,15 @@ def run(ck: vlib.Check):
     ck.cov["thread_pools_with_permuted_completion_order"] = permuted
     ck.cov["calls_through_working_tree_cpp_via_ctypes"] = sum(1 for c in calls if c.get("native_so"))
     # ---- the property's clauses, directly on the implementation's answers
-    full = {}
+    full, fulld = {}, {}
     for c, m, r in zip(calls, meta, impl):
         if m["kind"] == "full" and r["outcome"] == "ok":
             full[m["fi"]] = r["values"][0]
+        if m["kind"] == "full-decoded" and r["outcome"] == "ok":
+            fulld[m["fi"]] = r["values"][0]
+
+    def strip_ids(v):
+        return {"hdr": v["hdr"], "dets": [[d[0], d[1], [row[1:] for row in d[2]] if d[0] in ("mdc", "tof", "emc", "muc") else d[2]] for d in v["dets"]]}
 
     def viol(key, what, c, fi):
         if not any(v["key"] == key for v in ck.viol):
@@ -215,6 +255,34 @@ def run(ck: vlib.Check):
         if fi not in full:
             continue
         fl = full[fi]
+        if m["kind"] in ("full-decoded", "select-decoded", "batch-decoded", "fresh-process-decoded", "reread-decode-mix"):
+            fd = fulld.get(fi)
+            if fd is None:
+                continue
+            if m["kind"] == "full-decoded":
+                if strip_ids(fd) != strip_ids(fl):
+                    viol("C04:decoded-vs-undecoded", f"arrays(decode_reid=True) differs from arrays(decode_reid=False) in something else than the id columns: {first_diff(strip_ids(fl), strip_ids(fd))}", c, fi)
+            elif m["kind"] == "select-decoded":
+                dets = G.mask_dets(m["mask"]); v = r["values"][0]
+                if {x: v[x] for x in ("hdr", "dets")} != project(fd, dets):
+                    viol("C04:selection:decoded", f"arrays({desc}, decode_reid=True) is not the projection of the decoded full read onto {dets}: "
+                         f"{first_diff(project(fd, dets), v)}", c, fi)
+            elif m["kind"] in ("batch-decoded", "fresh-process-decoded"):
+                v = r["values"][0]
+                if {x: v[x] for x in ("hdr", "dets")} != {x: fd[x] for x in ("hdr", "dets")}:
+                    viol(f"C04:{m['kind']}", f"arrays({desc}, decode_reid=True){' as the first read of a fresh process' if m['kind'].startswith('fresh') else ''} differs from the "
+                         f"single-batch decoded read at {first_diff(fd, v)}", c, fi)
+            else:
+                for k, (it, v) in enumerate(zip(m["seq"], r["values"])):
+                    ref = fd if it["decode"] else fl
+                    nblk = N if it["nb"] == -1 else it["nb"]
+                    nev = sum(len(b["events"]) for b in f["blocks"][:nblk])
+                    want = {"hdr": ref["hdr"][:nev], "dets": [[d[0], d[1][:nev + 1], d[2][:d[1][nev]]] for d in ref["dets"]]}
+                    if {x: v[x] for x in ("hdr", "dets")} != want:
+                        viol("C04:reread:decode-mix", f"call {k} ({it}) of a history of decoded / undecoded reads on one reader differs from the same read on a "
+                             f"fresh reader at {first_diff(want, v)}", c, fi)
+                        break
+            continue
         for k, v in enumerate(r["values"]):
             nb = ([x for x in m["seq"] if x != "bad"][k] if m["seq"] else m["nb"])
             if m["kind"] in ("batch",):
